@@ -301,6 +301,13 @@ impl DrawExecutor {
         // user defined line patterns (LineType::UserDefined, mask 6) are not implemented: such lines are drawn solid
         let mut line_mask = LINE_STYLE.get(mask).copied().unwrap_or(0xFFFF);
 
+        // only the part of the line inside the screen can be drawn: clipping first keeps the work bounded by the
+        // canvas (not by the coordinates) and the arithmetic below inside i32
+        let res = self.get_resolution();
+        let Some((x0, y0, x1, y1)) = clip_line(x0, y0, x1, y1, res.width - 1, res.height - 1) else {
+            return;
+        };
+
         let dx = (x0 - x1).abs();
         let dy = (y0 - y1).abs();
 
@@ -1377,6 +1384,56 @@ impl CommandExecutor for DrawExecutor {
             _ => Err(anyhow::anyhow!("Unimplemented IGS command: {command:?}")),
         }
     }
+}
+
+/// Moves the end point (u0, v0) of the line to (u1, v1) along the line to the coordinate u = bound (u0 != u1).
+fn cut(u0: i128, v0: i128, u1: i128, v1: i128, bound: i128) -> (i128, i128) {
+    (bound, v0 + (v1 - v0) * (bound - u0) / (u1 - u0))
+}
+
+/// The part of the line (x0, y0) - (x1, y1) inside the rectangle 0..=x_max x 0..=y_max: the line is cut at the four
+/// edges in turn. None if nothing of it is inside. (i128: the product of two coordinate differences needs 65 bits.)
+fn clip_line(x0: i32, y0: i32, x1: i32, y1: i32, x_max: i32, y_max: i32) -> Option<(i32, i32, i32, i32)> {
+    let (mut x0, mut y0, mut x1, mut y1) = (i128::from(x0), i128::from(y0), i128::from(x1), i128::from(y1));
+    let (x_max, y_max) = (i128::from(x_max), i128::from(y_max));
+
+    // left edge
+    if x0 < 0 && x1 < 0 {
+        return None;
+    }
+    if x0 < 0 {
+        (x0, y0) = cut(x0, y0, x1, y1, 0);
+    } else if x1 < 0 {
+        (x1, y1) = cut(x1, y1, x0, y0, 0);
+    }
+    // right edge
+    if x0 > x_max && x1 > x_max {
+        return None;
+    }
+    if x0 > x_max {
+        (x0, y0) = cut(x0, y0, x1, y1, x_max);
+    } else if x1 > x_max {
+        (x1, y1) = cut(x1, y1, x0, y0, x_max);
+    }
+    // top edge
+    if y0 < 0 && y1 < 0 {
+        return None;
+    }
+    if y0 < 0 {
+        (y0, x0) = cut(y0, x0, y1, x1, 0);
+    } else if y1 < 0 {
+        (y1, x1) = cut(y1, x1, y0, x0, 0);
+    }
+    // bottom edge
+    if y0 > y_max && y1 > y_max {
+        return None;
+    }
+    if y0 > y_max {
+        (y0, x0) = cut(y0, x0, y1, x1, y_max);
+    } else if y1 > y_max {
+        (y1, x1) = cut(y1, x1, y0, x0, y_max);
+    }
+    Some((x0 as i32, y0 as i32, x1 as i32, y1 as i32))
 }
 
 const REGISTER_TO_PEN: &[usize; 17] = &[0, 2, 3, 6, 4, 7, 5, 8, 9, 10, 11, 14, 12, 12, 15, 13, 1];
